@@ -285,7 +285,7 @@ func (h *Hist) votes(ctx sdk.Context) {
 func (h *Hist) genUserTx(ctx sdk.Context) {
 	a := h.ref.App
 	r := h.r
-	deadline := h.now.Unix() + 60
+	deadline := h.now.Unix() + h.r.PickInt(60, 60, 20, 5, 1)
 	if r.Chance(1, 25) {
 		deadline = h.now.Unix() - 1
 	}
